@@ -5,7 +5,7 @@ import "time"
 func init() {
 	props = append(props, prop{
 		ID: "C02", Title: "Inbound delivery in every poller configuration", Level: "exploration",
-		Rule:        "case = {tcp,unix,udp} x {LT,ET,ONESHOT} x {sync,async read} x IOExecute {default, goroutine-per-call, bounded pool} enumerated; NPoller {1,2,4}, ReadBufferSize {1,7,512,4096,65536}, MaxConnReadTimesPerEventLoop {1,3,default}, 1-4 connections/remotes, peer pattern {single burst, many small writes, byte-at-a-time, pause-resume, bursts larger than the read buffer, burst + half-close, burst + full close (what was sent before the close is still owed), echo (the application answers every chunk with a Write while the peer does not read, so that a write backlog forms and write interest is armed and re-armed while 2-14 MiB of input keep coming); UDP: bursts of 1-20 datagrams then silence}, seeded delays at asyncRead.beforeDecr and inside the data callback sampled from the seed. Streams are self-describing; per connection the concatenation of callback payloads must equal the sent stream at quiescence, callbacks must not overlap; UDP: every delivered datagram equals exactly one sent datagram, once, in per-remote order, one logical connection per remote with the right remote address (kernel drop counter > 0 => inconclusive). The senders are not waited for (a deaf connection blocks its sender). Non-delivery = read stuck-state (FIONREAD > 0 on nbio's descriptor, no read task in flight, idle CPU, 60 samples/3 s); idle spin = process CPU > 25% of a core in three consecutive 1 s windows after all input was delivered. A case is non-trivial when all its input was delivered and compared; distinct by case index Empty UDP datagrams are mixed into the bursts (whether they reach the callback is not asserted, they must not disturb sessions or neighbours); an engine that closes its UDP listener although nobody asked for it is a verdict of its own (udp-listener-closed). A fifth of the tcp cases let the engine dial its connections (DialAsync to a plain listener) while its single poller is held in the callback of a helper dial: every peer sends its first bytes the moment it has accepted and nothing more until they were delivered.",
+		Rule:        "case = {tcp,unix,udp} x {LT,ET,ONESHOT} x {sync,async read} x IOExecute {default, goroutine-per-call, bounded pool} enumerated; NPoller {1,2,4}, ReadBufferSize {1,7,512,4096,65536}, MaxConnReadTimesPerEventLoop {1,3,default}, 1-4 connections/remotes, peer pattern {single burst, many small writes, byte-at-a-time, pause-resume, bursts larger than the read buffer, burst + half-close, burst + full close (what was sent before the close is still owed), echo (the application answers every chunk with a Write while the peer does not read, so that a write backlog forms and write interest is armed and re-armed while 2-14 MiB of input keep coming); UDP: bursts of 1-20 datagrams then silence}, seeded delays at asyncRead.beforeDecr and inside the data callback sampled from the seed. Streams are self-describing; per connection the concatenation of callback payloads must equal the sent stream at quiescence, callbacks must not overlap; UDP: every delivered datagram equals exactly one sent datagram, once, in per-remote order, one logical connection per remote with the right remote address (kernel drop counter > 0 => inconclusive). The senders are not waited for (a deaf connection blocks its sender). Non-delivery = read stuck-state (FIONREAD > 0 on nbio's descriptor, no read task in flight, idle CPU, 60 samples/3 s); idle spin = process CPU > 25% of a core in three consecutive 1 s windows after all input was delivered. A case is non-trivial when all its input was delivered and compared; distinct by case index Empty UDP datagrams are mixed into the bursts (whether they reach the callback is not asserted, they must not disturb sessions or neighbours); an engine that closes its UDP listener although nobody asked for it is a verdict of its own (udp-listener-closed). A fifth of the tcp cases let the engine dial its connections (DialAsync to a plain listener) while its single poller is held in the callback of a helper dial: every peer sends its first bytes the moment it has accepted and nothing more until they were delivered.. A third of the UDP cases listen on an IPv6 socket ([::1] or the wildcard address with IPv4 remotes) with two remotes of one address",
 		Assumptions: commonAssumptions,
 		Phases: []phase{
 			{Name: "main", Pkg: "./workers/c02", QuickShards: 12, ThorShards: 16, QuickTO: 6 * time.Minute},
